@@ -41,12 +41,13 @@ class Compiler:
         return self.compile_block(state, file.body, start)
 
 
-    def compile_block(self, state, block, start):
+    def compile_block(self, state, block, start, local_symbol_prefix=None):
         addr = start
         data = b""
 
-        local_symbol_prefix = f".local{self.next_local_symbol_prefix}."
-        self.next_local_symbol_prefix += 1
+        if local_symbol_prefix is None:
+            local_symbol_prefix = f".local{self.next_local_symbol_prefix}."
+            self.next_local_symbol_prefix += 1
 
         try:
             for insn in block.insns:
